@@ -5,6 +5,7 @@ import (
 	"strings"
 	"testing"
 
+	"github.com/evolbioinfo/goalign/align"
 	"pgregory.net/rapid"
 	"verif/internal/gen"
 	"verif/internal/pbt"
@@ -188,4 +189,35 @@ func TestFoldEveryLetter(t *testing.T) {
 		o.Class("alphabet=%s", c.Alphabet)
 		return o, nil
 	})
+}
+
+// ---- provenance: the object a statistic is computed on was cloned, renamed, cut, cleaned, re-parsed ----
+
+// maybePlan draws, for about a third of the cases, a chain of public operations ending on the content
+func maybePlan(t *rapid.T, a gen.Ali) *gen.Plan {
+	if rapid.IntRange(0, 2).Draw(t, "provenance") != 1 {
+		return nil
+	}
+	junk := "ACGTN-"
+	if a.Alphabet == "aa" {
+		junk = "ARNDLKX-"
+	}
+	p := gen.DrawPlan(t, a, junk, 3)
+	return &p
+}
+
+// buildVia builds the alignment of a case: freshly, or through its plan
+func buildVia(a gen.Ali, p *gen.Plan, o *pbt.Outcome) align.Alignment {
+	if p == nil || len(p.Steps) == 0 {
+		return gen.MustBuild(a)
+	}
+	al, usable := gen.BuildVia(a, *p)
+	if !usable {
+		o.Class("provenance-unusable")
+		return gen.MustBuild(a)
+	}
+	for _, k := range p.Kinds() {
+		o.Class("provenance:%s", k)
+	}
+	return al
 }
